@@ -195,8 +195,15 @@ def run_spec(ctx, src="e2.cxx", exe="e2", prefix_filter="", flags="", per_timeou
 
     def emit_one(k):
         try:
-            q = subprocess.run([binp, "--emit", vcdir, names[k], "exact", "index.%d.json" % k], capture_output=True, text=True, timeout=3600 if ctx.thorough else 900)
-            return (q.returncode, (q.stderr or q.stdout)[-500:])
+            for attempt in (0, 1):
+                q = subprocess.run([binp, "--emit", vcdir, names[k], "exact", "index.%d.json" % k], capture_output=True, text=True, timeout=3600 if ctx.thorough else 900)
+                if q.returncode >= 0:
+                    break
+            msg = (q.stderr or q.stdout)[-500:]
+            if q.returncode < 0:
+                # a feasibility query that timed out lets an infeasible branch be explored, where the real code may leave its domain
+                msg = "VC generator killed by signal %d while exploring %s (twice) %s" % (-q.returncode, names[k], msg)
+            return (q.returncode, msg)
         except subprocess.TimeoutExpired:
             return (124, "timeout while exploring " + names[k])
     with ThreadPoolExecutor(max_workers=min(int(os.environ.get("VERIF_JOBS", "16")), len(names))) as ex:
